@@ -23,7 +23,8 @@ func init() {
 func checkC19(c *Ctx) {
 	c.Rule("exact shapes (sphere, rounded and sharp boxes axis-aligned and rotated, cylinder, cone, union, difference), each wrapped with a " +
 		"bounding box enlarged by 10-30% so the surface is strictly inside the sampled volume, cubic and 2:1:1 / 1:1:2.5 aspect, rendered by " +
-		"DualContouringV1 (no simplification, LockVertices on) and DualContouringV2 (defaults, clamping on) at resolutions 8..20 (quick) / 8..48; " +
+		"DualContouringV1 (no simplification, LockVertices on) and DualContouringV2 (defaults, clamping on) at resolutions 8..28 (quick) / 8..56, " +
+		"never fewer than 4 cells across the shape's thinnest extent; " +
 		"triangles are collected from the channel handed to Render. Oracle: welded directed-edge balance, positive signed volume (its error against " +
 		"the analytic / densely sampled volume is reported, not judged), |f(v)| <= one cell diagonal, vertices inside the sampled box, identical output when rendered " +
 		"twice. Non-trivial = render emitted >= 8 triangles; distinct = (renderer, shape, aspect, cells).")
@@ -142,9 +143,18 @@ func shardC19(c *Ctx, shard, nshards int) {
 			grow.Z += 1.5 * bb.Size().MaxComponent()
 		}
 		box := bb.Enlarge(grow)
+		// the shape has to be resolvable: at least 4 cells across its thinnest extent (a grid cannot mesh what it cannot see)
+		need := int(math.Ceil(4 * box.Size().MaxComponent() / bb.Size().MinComponent()))
+		if need > maxCells {
+			box = bb.Enlarge(bb.Size().MulScalar(r.R(0.1, 0.3)))
+			need = int(math.Ceil(4 * box.Size().MaxComponent() / bb.Size().MinComponent()))
+		}
+		if need > maxCells {
+			continue
+		}
 		fs := s
 		wrapped := &fieldSDF3{bb: box, fn: fs.Evaluate}
-		cells := r.IR(8, maxCells)
+		cells := r.IR(maxInt2(8, need), maxCells)
 		name := []string{"v1", "v2"}[(i/8)%2]
 		cs := c19Case{i, name, cells, desc, box}
 		fmt.Printf("CASE %d %s cells=%d %s\n", i, name, cells, desc)
@@ -314,4 +324,11 @@ func sampledVolume(s sdf.SDF3, bb sdf.Box3, n int) float64 {
 		}
 	}
 	return float64(in) / float64(n*n*n) * sz.X * sz.Y * sz.Z
+}
+
+func maxInt2(a, b int) int {
+	if a > b {
+		return a
+	}
+	return b
 }
